@@ -1307,6 +1307,9 @@ type genOpts struct {
 	rootless      bool
 	oddFormat     bool
 	dupEnumMember bool // one enum repeats one of its member names (an INVALID schema: error path)
+	// dupField: the first struct / oneof written gets dupN fields and field dupAt repeats the name of
+	// field dupOf (an INVALID schema: "duplicate field name" must be the answer for every pair)
+	dupN, dupOf, dupAt int
 }
 
 type gdef struct {
@@ -1575,6 +1578,7 @@ func genSchema(r *rng.R, o genOpts) string {
 		}
 		return baseType(true)
 	}
+	dupPlanted := false
 	for _, d := range defs {
 		switch d.kind {
 		case "struct", "oneof":
@@ -1597,12 +1601,33 @@ func genSchema(r *rng.R, o genOpts) string {
 			}
 			w.glue("{")
 			nf := r.Intn(6)
+			if r.Chance(1, 12) {
+				nf = 7 + r.Intn(14) // wide structs / oneofs: 7..20 fields
+			}
 			if rootSet[d.name] && nf == 0 {
 				nf = 1
 			}
 			fu := map[string]bool{}
+			// in odd mode, sometimes one field name is repeated (a duplicate field name must be
+			// refused wherever the two fields are: every pair of positions is drawn over time)
+			dupAt, dupOf := -1, -1
+			if w.odd && nf >= 2 && r.Chance(1, 6) && o.dupN == 0 {
+				dupAt = 1 + r.Intn(nf-1)
+				dupOf = r.Intn(dupAt)
+			}
+			if o.dupN > 0 && !dupPlanted {
+				dupPlanted = true
+				nf, dupOf, dupAt = o.dupN, o.dupOf, o.dupAt
+			}
+			var fnames []string
 			for i := 0; i < nf; i++ {
-				w.tok(genIdent(r, fu))
+				if i == dupAt {
+					w.tok(fnames[dupOf])
+					fnames = append(fnames, fnames[dupOf])
+				} else {
+					fnames = append(fnames, genIdent(r, fu))
+					w.tok(fnames[i])
+				}
 				fieldType()
 				if r.Chance(1, 4) {
 					w.tok("optional")
@@ -1991,6 +2016,24 @@ func runC12() {
 		stats["gen-dup-enum-member"]++
 		if rr.kind == "err" && strings.HasPrefix(rr.class, "dup-enum-field:") {
 			stats["gen-dup-enum-member-rejected"]++
+		}
+	}
+	// generated schemas in which the first struct / oneof repeats a field name: every pair of
+	// positions in structs of 2..20 fields (quick: a diagonal sample plus random pairs)
+	for size := 2; size <= 20; size++ {
+		for of := 0; of < size-1; of++ {
+			for at := of + 1; at < size; at++ {
+				if !thorough && !(at == size-1 || at == of+1 || r.Chance(1, 6)) {
+					continue
+				}
+				o := genOpts{enums: r.Bool(), oddFormat: r.Chance(1, 4), dupN: size, dupOf: of, dupAt: at}
+				t := genSchema(r, o)
+				rr := parseCase(fmt.Sprintf("gendupfield-%d-%d-%d", size, of, at), t)
+				stats["gen-dup-field"]++
+				if rr.kind == "err" && strings.HasPrefix(rr.class, "dup-field:") {
+					stats["gen-dup-field-rejected"]++
+				}
+			}
 		}
 	}
 	n = 1500
